@@ -279,3 +279,31 @@ package labels
 //@   assert at "labelSupervoxels[label] = struct{}{}": len(labelSupervoxels) == 0
 //@   invariant loop 1: forall s uint64 :: has(labelSupervoxels, s) ==> old(idx.Blocks != nil && svIn(idx, s)) || (wasEmpty && s == label)
 //@   assert at "for izyxStr, delta := range blockChanges {": old(idx.Blocks != nil && svIn(idx, supervoxel)) || (wasEmpty && supervoxel == label)
+
+// SplitSupervoxels (C10): a voxel is relabelled exactly when its current label is a key of the split
+// table - in the pass over the runs (to the Split label) and in the pass over the whole block (to the
+// Remain label) alike; no other table decides.
+//@ func PositionedBlock.SplitSupervoxels
+//@   prop C10
+//@   safety_off
+//@   calls_havoc
+//@   modifies *
+//@   assert at "if found {": found == has(svsplits, lblarray[i])
+//@   assert at "lblarray[i] = svsplit.Remain": has(svsplits, lblarray[i]) && svsplit.Remain == svsplits[lblarray[i]].Remain
+//@   assert at "lblarray[i] = svsplit.Split": has(svsplits, lblarray[i]) && svsplit.Split == svsplits[lblarray[i]].Split
+
+// downresArray (C10, kernel of DownresSlow / Downres): the vote table is empty again after the winner
+// of a 2x2x2 neighbourhood has been chosen (every entry is visited and deleted), so no vote leaks into
+// the next neighbourhood; the winner is one of the voted labels (or 0 when all eight voxels are 0).
+//@ func downresArray
+//@   prop C10
+//@   safety_off
+//@   modifies *
+//@   invariant loop 1: votemap != nil && (forall l uint64 :: !has(votemap, l))
+//@   invariant loop 2: votemap != nil && (forall l uint64 :: !has(votemap, l))
+//@   invariant loop 3: votemap != nil && (forall l uint64 :: !has(votemap, l))
+//@   invariant loop 4: votemap != nil
+//@   invariant loop 5: votemap != nil
+//@   invariant loop 6: votemap != nil
+//@   invariant loop 7: votemap != nil && (forall l uint64 :: visited7[l] ==> !has(votemap, l)) && (winner != 0 ==> visited7[winner])
+//@   assert at "li := (lz+vz)*nyx + (ly+vy)*blockSize[0] + lx + vx": forall l uint64 :: !has(votemap, l)
